@@ -14,6 +14,10 @@ structure Facts where
   analyzerMethods : List (String × String)
   /-- PathItem fields collected by mixin's `pathItemOps`, in source order -/
   mixinMethods : List String
+  /-- `getOpIDs` / `mergePaths` ignore operations whose id is empty -/
+  mixinSkipsEmptyIDs : Bool
+  /-- `mergeSwaggerProps` merges external docs only when the mixin has some (`m.ExternalDocs != nil`) -/
+  mixinExtDocsGuard : Bool
   /-- PathItem fields tested by `SafeParametersFor`, in source order -/
   paramsForMethods : List String
   deriving Repr
@@ -27,6 +31,8 @@ def reference : Facts where
   analyzerMethods := [("GET", "get"), ("PUT", "put"), ("POST", "post"), ("PATCH", "patch"),
                       ("DELETE", "delete"), ("HEAD", "head"), ("OPTIONS", "options")]
   mixinMethods := ["get", "put", "post", "delete", "head", "patch", "options"]
+  mixinSkipsEmptyIDs := true
+  mixinExtDocsGuard := true
   paramsForMethods := ["get", "head", "options", "post", "patch", "put", "delete"]
 
 end Facts
